@@ -23,6 +23,7 @@ import os, re, json, subprocess
 from lib import vlib, sandbox, inproc
 from hypothesis import strategies as st
 from props import c17_ref as ref
+from props import c11_tools
 
 LEVEL = "exploration"
 RULE = ("Part 1: complete enumeration of local parts over the 19-symbol alphabet up to the bound plus seeded random local parts; "
@@ -507,6 +508,7 @@ class Runner:
         self.tree = tree
         self.h = sandbox.Home(tree, os.path.join(vlib.scratch_root(), "c17-%s" % wid))
         self.h.link_bins()
+        self.shim, self.standin = c11_tools.private_tools()
         self.rec = os.path.join(self.h.dir, "rec")
         os.makedirs(self.rec, exist_ok=True)
 
@@ -517,7 +519,7 @@ class Runner:
             h.control(c, None if v is None else v + b"\n")
         for f in os.listdir(self.rec):
             os.unlink(os.path.join(self.rec, f))
-        env = h.env(role="inj", uid=4242, trace=False, QMAILQUEUE=sandbox.STANDIN, VSHIM_FIXTIME=FIXTIME, VSHIM_FIXPID=FIXPID,
+        env = h.env(role="inj", uid=4242, trace=False, QMAILQUEUE=self.standin, LD_PRELOAD=self.shim, VSHIM_FIXTIME=FIXTIME, VSHIM_FIXPID=FIXPID,
                     **sandbox.standin_env(self.rec, read="01", qq=True))
         if sc["flags"]:
             env["QMAILINJECT"] = sc["flags"]
@@ -703,6 +705,7 @@ def worker(job):
 
 def run(ctx):
     sandbox.ensure_shim()
+    c11_tools.private_tools()
     tree = vlib.Tree()
     only = getattr(ctx, "only", None)
     if not only or "rt" in only:
